@@ -160,7 +160,21 @@ CLAIMS["C20"] = {
 }
 
 MIRRORED = {"C01", "C02", "C03", "C04", "C06", "C07", "C08", "C09", "C11", "C13", "C14", "C15", "C17"}
-MIRROR_NOTE = "; differential release-build mirror (a stride of every debug run of the driver is replayed on the release build, the two records must be identical)"
+ENV_MIRRORED = MIRRORED - {"C09", "C15"}
+ALONE_ONLY = {"C05", "C10", "C12", "C16", "C19"}
+
+
+def mirror_note(pid):
+    if pid in MIRRORED:
+        parts = ["on the release build"]
+        if pid in ENV_MIRRORED:
+            parts.append("on the debug build in another process environment (time zone with a 30-minute daylight-saving shift, Turkish locale, other working directory)")
+        parts.append("case by case in fresh processes")
+        return "; differential replicas of the judged debug run (a stride of its driver cases is replayed " + ", ".join(parts) + "; the records must be identical)"
+    if pid in ALONE_ONLY:
+        return "; differential replica of the judged debug run (a stride of its driver cases is replayed case by case in fresh processes; the records must be identical)"
+    return ""
+
 
 NOT_YET = "check not built yet in this round (work in progress; see DESIGN.md for the planned monitor)"
 
@@ -189,7 +203,7 @@ def main():
                 "engine": "dmntk-verif-driver",
                 "level_claimed": {"category": c["category"], "text": c["text"], "design_ref": c.get("design_ref", "DESIGN.md §3")},
                 "level_note": c["note"],
-                "technique": c["technique"] + (MIRROR_NOTE if pid in MIRRORED else ""),
+                "technique": c["technique"] + mirror_note(pid),
             }
         )
     manifest = {
